@@ -31,8 +31,8 @@ REQUIRED = {"ei:z<-40": 20, "ei:-40<=z<-3": 50, "ei:-3<=z<0": 50, "ei:z>=0": 20,
 
 def jobs(tier, seed):
     n_jobs = 16 if tier == "quick" else 32
-    return [{"name": f"acq-{j}", "seed": seed, "j": j, "n_gps": 10 if tier == "quick" else 80,
-             "n_opt": 2 if tier == "quick" else 10} for j in range(n_jobs)]
+    return [{"name": f"acq-{j}", "seed": seed, "j": j, "n_gps": 30 if tier == "quick" else 150,
+             "n_opt": 3 if tier == "quick" else 12} for j in range(n_jobs)]
 
 
 def ei_reference(mu, sig, ymax):
